@@ -2,16 +2,24 @@ package backup
 
 // C37: automatic backups upload every change.
 //
-// The real (*Uploader).upload and the ticker loop of (*Uploader).Start are executed against
-//   - a model DataProvider: a database whose index never decreases, receives a symbolic number
+// Entries
+//   VerifC37Step      one round of the real (*Uploader).upload from ANY uploader state (inductive step)
+//   VerifC37Rounds    K rounds of a fresh uploader: failures are retried by later rounds
+//   VerifC37Ticker    the ticker loop of (*Uploader).Start on the model clock
+//   VerifC37Provider  real Uploader over the real store.Provider while the store refuses backups
+//   VerifC37Provide   real (*Provider).LastIndex / Provide on a failing disk
+//   VerifC37Twin      vacuity twin
+//
+// In the first three the real uploader code runs against
+//   - a model DataProvider: a database whose index never decreases and receives a symbolic number
 //     of writes between rounds AND between LastIndex and Provide (and later, while the round is
 //     still uploading); Provide writes an image that encodes the state it contains, or fails
 //     (before writing / after a partial write);
 //   - a model StorageClient that records what it is given (label, every byte it can read) and
 //     fails CurrentID / Upload on command; the remote object left by an earlier incarnation is
-//     symbolic (none, non-numeric id, any numeric id).
+//     symbolic (non-numeric id, any numeric id).
 // The oracle is written from the property statement; it keeps its OWN notion of "last successful
-// upload" (the label of the last Upload call that returned nil) and never reads it from the code.
+// upload" (the label of the last Upload call that returned nil) and never derives it from the code.
 
 import (
 	"context"
@@ -22,6 +30,9 @@ import (
 	"os"
 	"strconv"
 	"time"
+
+	"github.com/rqlite/rqlite/v10/command/proto"
+	"github.com/rqlite/rqlite/v10/store"
 )
 
 // ---------------------------------------------------------------- ids and images
@@ -222,14 +233,15 @@ func verifExpvarGet(m *expvar.Map, key string) expvar.Var { return verifStatInt 
 type verifFaults struct {
 	lastIndex bool // LastIndex returns an error
 	temp      bool // the local temp file cannot be created
-	provide   bool // Provide fails before writing / after a partial write
+	provide   bool // Provide fails before writing anything
+	partial   bool // Provide fails after a partial write
 	rewind    bool // Provide succeeds after an internal partial attempt and a rewind
 	currentID bool // CurrentID returns an error
 	upload    bool // Upload returns an error
 }
 
-var verifAllFaults = verifFaults{true, true, true, true, true, true}
-var verifLeanFaults = verifFaults{lastIndex: true, provide: true, currentID: true, upload: true}
+var verifAllFaults = verifFaults{true, true, true, true, true, true, true}
+var verifLeanFaults = verifFaults{partial: true, upload: true}
 
 type verifProv struct {
 	idx    uint64 // index of the last change made to the database
@@ -284,11 +296,19 @@ func (p *verifProv) verifWrites(name string) {
 
 func (p *verifProv) LastIndex() (uint64, error) {
 	p.nLast++
-	switch verifPick(verifName("lastIndex", p.round), verifOpts("ok", verifIf(p.faults.lastIndex, "fail"), verifIf(p.faults.temp, "temp"))...) {
+	again := p.lastRound == p.round
+	if again {
+		// asked again within one round: the database may have moved on meanwhile
+		n := verifU64(verifName("writesBeforeLastIndexCall", p.nLast))
+		verifAssume(n >= p.idx)
+		p.idx = n
+	}
+	switch verifPick(verifName("lastIndexCall", p.nLast), verifOpts("ok", verifIf(p.faults.lastIndex, "fail"), verifIf(p.faults.temp && !again, "temp"))...) {
 	case "fail":
 		p.lastFailed = true
 		return 0, errors.New("verif: LastIndex failed")
 	case "temp":
+		// the next attempt to create the local temp file fails
 		p.tempFails = true
 		verifSetTempFail(true)
 	}
@@ -302,7 +322,7 @@ func (p *verifProv) Provide(w io.WriteSeeker) error {
 	p.verifWrites("writesBeforeProvide")
 	img := verifImage(p.idx)
 	switch verifPick(verifName("provide", p.round), verifOpts("ok", verifIf(p.faults.rewind, "rewind"),
-		verifIf(p.faults.provide, "fail"), verifIf(p.faults.provide, "partial"))...) {
+		verifIf(p.faults.provide, "fail"), verifIf(p.faults.partial, "partial"))...) {
 	case "rewind": // a first internal attempt dies half-way, the provider rewinds and writes again
 		if _, err := w.Write(img[:5]); err != nil {
 			return err
@@ -336,6 +356,7 @@ type verifClient struct {
 
 	// outcome of this round's calls
 	idAnswered   bool
+	idFailed     bool
 	answeredID   string
 	uploadFailed bool
 
@@ -367,6 +388,7 @@ func (c *verifClient) CurrentID(ctx context.Context) (string, error) {
 	c.nCurrentID++
 	c.verifChooseRemote()
 	if verifPick(verifName("currentID", c.p.round), verifOpts("ok", verifIf(c.p.faults.currentID, "fail"))...) == "fail" {
+		c.idFailed = true
 		return "", errors.New("verif: CurrentID failed")
 	}
 	c.idAnswered, c.answeredID = true, c.remoteID
@@ -409,11 +431,14 @@ type verifOracle struct {
 	u *Uploader
 
 	lastOK uint64 // label of the last Upload that returned nil (0: none so far)
+	known  uint64 // newest index the storage service is known to hold (>= lastOK)
 
 	// snapshot taken at the start of a round
-	idx0     uint64
-	nUpload0 int
-	nLast0   int
+	idx0         uint64
+	nUpload0     int
+	nLast0       int
+	remote0      string // id held by the storage service (only tracked while lastOK == 0)
+	remote0Known bool
 }
 
 func verifNewSystem(interval time.Duration, faults verifFaults) *verifOracle {
@@ -432,8 +457,14 @@ func (o *verifOracle) begin(round int) {
 	p.round = round
 	p.verifWrites("writes")
 	p.lastFailed, p.tempFails, p.provFailed = false, false, false
-	c.idAnswered, c.uploadFailed = false, false
+	c.idAnswered, c.idFailed, c.uploadFailed = false, false, false
 	verifSetTempFail(false)
+	o.remote0, o.remote0Known = "", false
+	if o.lastOK == 0 {
+		// no upload of its own yet: what an earlier incarnation left in the service matters
+		c.verifChooseRemote()
+		o.remote0, o.remote0Known = c.remoteID, true
+	}
 	o.idx0 = p.idx
 	o.nUpload0 = c.nUpload
 	o.nLast0 = p.nLast
@@ -444,19 +475,27 @@ func (o *verifOracle) check() {
 	p, c := o.p, o.c
 	verifSetTempFail(false)
 	uploads := c.nUpload - o.nUpload0
-	verifAssert("C37-one-LastIndex-per-round", p.nLast-o.nLast0 == 1)
 	verifAssert("C37-at-most-one-upload-per-round", uploads <= 1)
 
-	// "the database has changed since the last successful automatic upload"
+	// "the database has changed since the last successful automatic upload" (by this uploader)
 	changed := o.idx0 > o.lastOK
-	// no successful upload yet in this uploader's life and the storage service answered that it
-	// already holds exactly this index: nothing has changed since the last successful upload
+	// the storage service already holds exactly this index (left by an earlier incarnation, or
+	// answered so in this round) and can be asked: nothing has changed since the last
+	// successful upload
 	sameAsRemote := false
-	if o.lastOK == 0 && c.idAnswered {
+	if o.remote0Known && !c.idFailed {
+		sameAsRemote = o.remote0 == verifID(o.idx0)
+	}
+	if c.idAnswered && !sameAsRemote {
 		sameAsRemote = c.answeredID == verifID(o.idx0)
 	}
 	localFailure := p.lastFailed || p.tempFails || p.provFailed
-	expect := changed && !localFailure && !sameAsRemote
+	// o.known >= o.lastOK is the newest index the service is KNOWN to hold (own successful
+	// uploads and confirmations by CurrentID). A round whose index is covered by a confirmation
+	// but not by an own upload may or may not upload (the uploader need not remember
+	// confirmations); every other round is decided.
+	mustNot := !changed || sameAsRemote || localFailure
+	must := o.idx0 > o.known && !sameAsRemote && !localFailure
 
 	if !changed && !p.lastFailed {
 		verifReach("unchanged-round")
@@ -464,14 +503,16 @@ func (o *verifOracle) check() {
 	if sameAsRemote && changed {
 		verifReach("skipped-by-remote-id")
 	}
-	if uploads == 1 && !expect {
+	if uploads == 1 && mustNot {
 		// name the broken clause
 		verifAssert("C37-no-change-uploads-nothing", changed)
 		verifAssert("C37-same-remote-id-uploads-nothing", !sameAsRemote)
 		verifAssert("C37-no-upload-without-a-complete-image", !localFailure)
 	}
-	verifAssert("C37-change-is-uploaded", uploads == 1 || !expect)
-	verifAssert("C37-upload-iff-due", (uploads == 1) == expect)
+	verifAssert("C37-change-is-uploaded", uploads == 1 || !must)
+	if c.idAnswered && c.answeredID == verifID(o.idx0) {
+		o.known = o.idx0 // confirmed by the service in this round
+	}
 
 	if uploads == 1 {
 		verifReach("uploaded")
@@ -484,13 +525,13 @@ func (o *verifOracle) check() {
 		verifAssert("C37-object-is-the-complete-image", verifSameBytes(c.lastContent, verifImage(p.imgState)))
 		verifAssert("C37-label-not-ahead-of-content", p.lastRet <= p.imgState)
 		if !c.uploadFailed {
-			o.lastOK = p.lastRet
+			o.lastOK, o.known = p.lastRet, p.lastRet
 		} else {
 			verifReach("upload-failed")
 		}
 	}
-	// "recorded as done" only by a successful upload
-	verifAssert("C37-lastIndex-advances-only-on-success", o.u.lastIndex == o.lastOK)
+	// "recorded as done" only by a successful upload (or a confirmation by the service)
+	verifAssert("C37-lastIndex-advances-only-on-success", o.u.lastIndex == o.lastOK || o.u.lastIndex == o.known)
 }
 
 // ---------------------------------------------------------------- entries
@@ -504,8 +545,21 @@ func VerifC37Step() {
 	o := verifNewSystem(time.Minute, verifAllFaults)
 	ctx := &verifCtx{done: make(chan struct{})}
 	o.lastOK = verifU64("lastUploaded")
+	o.known = o.lastOK
 	o.u.lastIndex = o.lastOK
-	verifAssume(o.p.idx >= o.lastOK)
+	if verifChoice("confirmedEarlier", 2) == 1 {
+		// no own upload yet, but an earlier round was told by the service that it holds index R
+		// (nobody else writes there); the uploader may or may not have remembered that
+		verifAssume(o.lastOK == 0)
+		r := verifU64("confirmedIndex")
+		verifAssume(r > 0)
+		o.known = r
+		o.c.remoteChosen, o.c.remoteID = true, verifID(r)
+		if verifChoice("remembersConfirmation", 2) == 1 {
+			o.u.lastIndex = r
+		}
+	}
+	verifAssume(o.p.idx >= o.known)
 	o.begin(0)
 	err := o.u.upload(ctx)
 	o.check()
@@ -522,7 +576,7 @@ func VerifC37Rounds() {
 	ctx := &verifCtx{done: make(chan struct{})}
 	K := 3
 	if verifTier() == 1 {
-		K = 4
+		K = 5
 	}
 	failedBefore := false
 	for r := 0; r < K; r++ {
@@ -544,7 +598,7 @@ func VerifC37Rounds() {
 func VerifC37Ticker() {
 	verifPanicsAreViolations()
 	const interval = 10 * time.Second
-	o := verifNewSystem(interval, verifFaults{upload: true})
+	o := verifNewSystem(interval, verifFaults{upload: verifTier() == 1})
 	ctx := &verifCtx{done: make(chan struct{})}
 	defer ctx.cancel()
 	enabled := true
@@ -556,7 +610,7 @@ func VerifC37Ticker() {
 	verifSettle()
 	verifAssert("C37-no-round-before-first-tick", o.p.nLast == 0)
 
-	K := 4
+	K := 3
 	if verifTier() == 1 {
 		K = 5
 	}
@@ -590,6 +644,7 @@ func VerifC37Ticker() {
 		verifSettle()
 		if tick && enabled && !cancelled {
 			verifReach("tick-round")
+			verifAssert("C37-enabled-tick-starts-a-round", o.p.nLast > o.nLast0)
 			o.check()
 		} else {
 			if tick {
@@ -604,6 +659,348 @@ func VerifC37Ticker() {
 		default:
 		}
 		verifAssert("C37-done-channel-closed-iff-stopped", closed == cancelled)
+	}
+}
+
+// ---------------------------------------------------------------- the real store.Provider
+
+// The Provider that rqlited hands to the Uploader is store.Provider over a *store.Store. Here
+// the real Uploader runs over the real Provider; the Store is the environment:
+//   - symbolic run: (*Store).DBAppliedIndex and (*Store).Backup are mapped (spec "models") to
+//     the two functions below, which read the world state verifW;
+//   - native replay: a partially constructed real Store (native_test.go: store.New plus the
+//     fields Backup's binary, non-vacuum path needs) whose database file, open flag and applied
+//     index are set from the same world state, so the REAL Backup copies exactly the image the
+//     model writes, or fails with ErrNotOpen where the model fails.
+// The world changes on the model clock, half-way between two attempts of Provide.
+
+type verifWorld struct {
+	open     bool
+	idx      uint64
+	attempts int // symbolic run only: calls of Backup
+	ctl      *verifStoreCtl
+}
+
+type verifStoreCtl struct {
+	store    *store.Store
+	setOpen  func(bool)
+	setIndex func(uint64)
+	setImage func([]byte)
+	cleanup  func()
+}
+
+// verifNativeStore is set by native_test.go (native replay only).
+var verifNativeStore func() *verifStoreCtl
+
+var verifW *verifWorld
+var verifWImage []byte // symbolic run: the image Backup copies, when it is not verifImage(idx)
+
+func verifNewWorld() *verifWorld {
+	w := &verifWorld{}
+	if verifSymbolic() {
+		w.ctl = &verifStoreCtl{store: &store.Store{}}
+	} else {
+		w.ctl = verifNativeStore()
+	}
+	verifW, verifWImage = w, nil
+	return w
+}
+
+func (w *verifWorld) set(open bool, idx uint64) {
+	w.open, w.idx = open, idx
+	if !verifSymbolic() {
+		w.ctl.setImage(verifImage(idx))
+		w.ctl.setIndex(idx)
+		w.ctl.setOpen(open)
+	}
+}
+
+func (w *verifWorld) close() {
+	if w.ctl.cleanup != nil {
+		w.ctl.cleanup()
+	}
+}
+
+func verifStoreDBAppliedIndex(s *store.Store) uint64 { return verifW.idx }
+
+func verifStoreBackup(s *store.Store, ctx context.Context, br *proto.BackupRequest, dst io.Writer) error {
+	w := verifW
+	w.attempts++
+	if !w.open {
+		return store.ErrNotOpen
+	}
+	img := verifImage(w.idx)
+	if verifWImage != nil {
+		img = verifWImage
+	}
+	_, err := dst.Write(img)
+	return err
+}
+
+const verifRetryGap = 500 * time.Millisecond // store.NewProvider: retryInterval
+
+// VerifC37Provider: one round of the real Uploader over the real store.Provider while the
+// store refuses the first f backup attempts and keeps receiving writes.
+func VerifC37Provider() {
+	verifPanicsAreViolations()
+	w := verifNewWorld()
+	defer w.close()
+	c := &verifClient{p: &verifProv{faults: verifFaults{upload: true}}}
+	u := &Uploader{storageClient: c, dataProvider: store.NewProvider(w.ctl.store, false, false), interval: time.Minute, logger: log.New(io.Discard, "", 0)}
+	ctx := &verifCtx{done: make(chan struct{})}
+	lastOK := verifU64("lastUploaded")
+	u.lastIndex = lastOK
+
+	// f = number of failing attempts before the store can be backed up; the last alternative:
+	// the store never recovers
+	fs := []int{0, 1, 2, -1}
+	if verifTier() == 1 {
+		fs = []int{0, 1, 2, 5, 10, -1}
+	}
+	f := fs[verifChoice("failingAttempts", len(fs))]
+	const maxStates = 13
+	states := maxStates
+	if f >= 0 {
+		states = f + 1
+	}
+	idxAt := make([]uint64, states)
+	for k := range idxAt {
+		idxAt[k] = verifU64(verifName("indexAtAttempt", k))
+		if k == 0 {
+			verifAssume(idxAt[0] >= lastOK)
+		} else {
+			verifAssume(idxAt[k] >= idxAt[k-1])
+		}
+	}
+	w.set(f == 0, idxAt[0])
+	worldDone := make(chan struct{})
+	go func() {
+		defer close(worldDone)
+		time.Sleep(verifRetryGap / 2)
+		for k := 1; k < states; k++ {
+			w.set(k == f, idxAt[k])
+			time.Sleep(verifRetryGap)
+		}
+	}()
+
+	t0 := verifClock()
+	err := u.upload(ctx)
+	elapsed := verifClock() - t0
+	<-worldDone
+
+	changed := idxAt[0] > lastOK
+	sameAsRemote := false
+	if c.idAnswered {
+		sameAsRemote = c.answeredID == verifID(idxAt[0])
+	}
+	verifAssert("C37p-at-most-one-upload", c.nUpload <= 1)
+	switch {
+	case !changed:
+		verifReach("provider-unchanged")
+		verifAssert("C37p-no-change-uploads-nothing", c.nUpload == 0)
+	case f < 0:
+		verifReach("provider-gave-up")
+		verifAssert("C37p-no-image-no-upload", c.nUpload == 0)
+		verifAssert("C37p-failure-is-reported", err != nil)
+		verifAssert("C37p-not-recorded-as-done", u.lastIndex == lastOK)
+	case sameAsRemote:
+		verifAssert("C37p-same-remote-id-uploads-nothing", c.nUpload == 0)
+	default:
+		// a transient failure of the backup is retried within the round
+		if f > 0 {
+			verifReach("provider-retried")
+		}
+		verifAssert("C37p-change-is-uploaded", c.nUpload == 1)
+		verifAssert("C37p-label-is-index-at-round-start", c.lastLabel == verifID(idxAt[0]))
+		verifAssert("C37p-object-read-cleanly", c.lastReadErr == nil)
+		verifAssert("C37p-object-is-the-image-of-the-successful-attempt", verifSameBytes(c.lastContent, verifImage(idxAt[f])))
+		verifAssert("C37p-label-not-ahead-of-content", idxAt[0] <= idxAt[f])
+		verifAssert("C37p-retries-are-spaced", elapsed >= int64(f)*int64(verifRetryGap)-int64(verifRetryGap)/2)
+		if c.uploadFailed {
+			verifAssert("C37p-failed-upload-not-recorded", u.lastIndex == lastOK && err != nil)
+		} else {
+			verifAssert("C37p-successful-upload-recorded", u.lastIndex == idxAt[0] && err == nil)
+		}
+	}
+}
+
+// ---------------------------------------------------------------- Provide in isolation
+
+// verifImageN: like verifImage, with n filler bytes (the database file can grow and shrink).
+func verifImageN(s uint64, n int) []byte {
+	b := verifImage(s)[:8]
+	for i := 0; i < n; i++ {
+		b = append(b, 'x')
+	}
+	return append(b, 'E', 'N', 'D')
+}
+
+// verifDisk is the upload file as Provide sees it (an io.WriteSeeker): a file that can run out
+// of space in the middle of a write and whose Seek can fail.
+type verifDisk struct {
+	data     []byte
+	pos      int
+	budget   int  // bytes that can still be written before "no space left" (-1: unlimited)
+	failSeek bool // Seek fails
+}
+
+func (d *verifDisk) Seek(off int64, whence int) (int64, error) {
+	if d.failSeek {
+		return 0, errors.New("verif: seek failed")
+	}
+	var p int64
+	switch whence {
+	case io.SeekStart:
+		p = off
+	case io.SeekCurrent:
+		p = int64(d.pos) + off
+	case io.SeekEnd:
+		p = int64(len(d.data)) + off
+	}
+	if p < 0 || p > int64(len(d.data)) {
+		return 0, errors.New("verif: seek outside the file (not modelled)")
+	}
+	d.pos = int(p)
+	return p, nil
+}
+
+// Truncate exists on *os.File too (the uploader's temp file); the current Provide never calls it.
+func (d *verifDisk) Truncate(size int64) error {
+	if size < 0 || size > int64(len(d.data)) {
+		return errors.New("verif: truncate outside the file (not modelled)")
+	}
+	d.data = d.data[:size]
+	return nil
+}
+
+func (d *verifDisk) Write(b []byte) (int, error) {
+	n := len(b)
+	var err error
+	if d.budget >= 0 && n > d.budget {
+		n, err = d.budget, errors.New("verif: no space left on device")
+	}
+	for _, c := range b[:n] {
+		if d.pos < len(d.data) {
+			d.data[d.pos] = c
+		} else {
+			d.data = append(d.data, c)
+		}
+		d.pos++
+	}
+	if d.budget >= 0 {
+		d.budget -= n
+	}
+	return n, err
+}
+
+// what one backup attempt meets
+type verifAttempt struct {
+	kind  string // "ok", "closed" (the store refuses), "nospace" (the disk fills up 2 bytes short)
+	idx   uint64
+	image []byte
+}
+
+// VerifC37Provide: the real (*Provider).LastIndex / Provide over the store world, with a disk
+// that fails. Transient failures are retried; a Provide that returns nil has left exactly one
+// complete image, of a state not older than the index reported before. As in
+// VerifC37Provider the world moves on the model clock, half-way between two attempts.
+func VerifC37Provide() {
+	verifPanicsAreViolations()
+	w := verifNewWorld()
+	defer w.close()
+	prov := store.NewProvider(w.ctl.store, false, false)
+
+	idx := verifU64("startIndex")
+	w.set(true, idx)
+	li, lerr := prov.LastIndex()
+	verifAssert("C37p-LastIndex-is-the-database-index", lerr == nil && li == idx)
+
+	// the plan: up to 2 failing attempts followed by a good one; or a store that never
+	// recovers; or a file that cannot be rewound
+	var plan []verifAttempt
+	dead, seekFails := false, false
+	for k := 0; k < 3; k++ {
+		kind := "ok"
+		switch k {
+		case 0:
+			kind = verifPick("attempt0", "ok", "closed", "nospace", "seekfail", "dead")
+		case 1:
+			kind = verifPick("attempt1", "ok", "closed", "nospace")
+		}
+		switch kind {
+		case "seekfail":
+			seekFails, kind = true, "ok"
+		case "dead":
+			dead, kind = true, "closed"
+		}
+		n := verifU64(verifName("indexAtAttempt", k))
+		verifAssume(n >= idx)
+		idx = n
+		// writes arrive, the database file may grow or shrink
+		fill := 3 * verifChoice(verifName("fillerAtAttempt", k), 2)
+		plan = append(plan, verifAttempt{kind: kind, idx: idx, image: verifImageN(idx, fill)})
+		if kind == "ok" || dead {
+			break
+		}
+	}
+	d := &verifDisk{budget: -1, failSeek: seekFails}
+	maxFailedLen := 0 // most bytes a failed attempt left in the file
+	apply := func(a verifAttempt) {
+		d.budget = -1
+		if a.kind == "nospace" {
+			d.budget = len(a.image) - 2
+		}
+		w.open, w.idx = a.kind != "closed", a.idx
+		if verifSymbolic() {
+			verifWImage = a.image
+		} else {
+			w.ctl.setImage(a.image)
+			w.ctl.setIndex(a.idx)
+			w.ctl.setOpen(w.open)
+		}
+	}
+	apply(plan[0])
+	worldDone := make(chan struct{})
+	go func() {
+		defer close(worldDone)
+		time.Sleep(verifRetryGap / 2)
+		for k := 1; k < len(plan); k++ {
+			if d.pos > maxFailedLen {
+				maxFailedLen = d.pos // plan[k-1] was a failing attempt
+			}
+			apply(plan[k])
+			time.Sleep(verifRetryGap)
+		}
+	}()
+
+	err := prov.Provide(d)
+	<-worldDone
+
+	last := plan[len(plan)-1]
+	switch {
+	case seekFails:
+		verifAssert("C37p-seek-failure-is-reported", err != nil)
+	case dead:
+		verifReach("provide-gave-up")
+		verifAssert("C37p-dead-store-is-reported", err != nil)
+	default:
+		// at most 2 transient failures: the retries must get through
+		verifAssert("C37p-transient-failures-are-retried", err == nil)
+	}
+	if err == nil {
+		verifAssert("C37p-nil-only-after-a-successful-attempt", last.kind == "ok" && !seekFails)
+		verifAssert("C37p-image-not-older-than-reported-index", li <= last.idx)
+		if len(plan) > 1 {
+			verifReach("provide-retried")
+		}
+		// the file holds exactly the image of the successful attempt
+		prefixOK := len(d.data) >= len(last.image) && verifSameBytes(d.data[:len(last.image)], last.image)
+		if prefixOK && len(d.data) > len(last.image) && maxFailedLen > len(last.image) && len(d.data) == maxFailedLen {
+			// Provide rewinds before every attempt but cannot truncate an io.WriteSeeker: bytes of a
+			// longer, failed attempt stay behind the shorter image of the successful one
+			verifFinding("C37-provide-stale-tail")
+		}
+		verifAssert("C37p-file-is-exactly-one-image", verifSameBytes(d.data, last.image))
 	}
 }
 
